@@ -105,7 +105,7 @@ OUTS = ['ok', 'raise', 'exit0', 'exit1', 'exit3', 'kbd']
 STATE_NAMES = ('STOPPED', 'STARTING', 'STARTED', 'STOPPING', 'EXITING')
 TICKCAP = 4              # = CpModel.Bus.tickCap
 DEPTHCAP = 40
-CASE_TIMEOUT = 20.0      # seconds; a case that takes longer is reported as a hang of the code under test
+CASE_TIMEOUT = 10.0      # seconds; a case that takes longer is reported as a hang of the code under test
 
 
 # ----------------------------------------------------------------------------------------------
@@ -739,7 +739,10 @@ def oracle(tokens, obs):
                             'KeyboardInterrupt' % (tokens[ci] if ci < len(tokens) else '?', r),
                             'unexpected_exception:%s:%s' % (m, r)))
     if obs.get('broken'):
-        return bad
+        r = obs['results'][0][0]
+        return [('the bus %s on this call sequence (%s)' % (
+            'did not come back within %.0f s' % CASE_TIMEOUT if r == 'timeout' else 'could not be set up', r),
+            'unexpected_exception:%s:%s' % (obs['broken'], r))]
 
     # (a) every subscribed listener exactly once, ascending priority, failures reported collectively
     for p in obs['pubs']:
@@ -1059,7 +1062,13 @@ def enum_reentrant():
 
 # ----------------------------------------------------------------------------------------------
 def _real_worker(chunk):
-    return [_slim(run_real(t)) for t in chunk]
+    out = []
+    for t in chunk:
+        if out and out[-1] is not None and out[-1].get('broken') == 'timeout':
+            out.append(None)        # the code under test hangs: do not burn the budget on the rest
+            continue
+        out.append(run_real(t))
+    return out
 
 
 def _slim(obs):
@@ -1068,6 +1077,8 @@ def _slim(obs):
 
 def check_cases(ctx, cases, compare=True, cov=None, procs=1):
     cases = list(cases)
+    if ctx.extra.get('hang_in_code_under_test'):
+        return
     model_lines = ctx.model([' '.join(c) for c in cases]) if compare else None
     if procs > 1 and len(cases) > 2000:
         n = (len(cases) + procs * 4 - 1) // (procs * 4)
@@ -1079,7 +1090,13 @@ def check_cases(ctx, cases, compare=True, cov=None, procs=1):
     else:
         observed = None
     for idx, toks in enumerate(cases):
+        if ctx.extra.get('hang_in_code_under_test'):
+            break
         obs = observed[idx] if observed is not None else run_real(toks, cov)
+        if obs is None:
+            continue
+        if obs.get('broken') == 'timeout':
+            ctx.extra['hang_in_code_under_test'] = ' '.join(toks)
         nontrivial = bool(obs['journal'])
         ctx.case(toks, nontrivial=nontrivial, key=' '.join(toks))
         flat = [r for rs in obs['results'] for r in rs]
@@ -1358,9 +1375,46 @@ def _measure_tables():
     return state_codes, chans, rows, sorted(exit_codes), prio
 
 
+TABLES_TIMEOUT = 30.0
+
+
+def _measure_tables_guarded():
+    """Run the measurement in a forked child with a hard time limit: `tables()` is called while the global
+    build lock is held, so code under test that hangs must not be able to hang it."""
+    import multiprocessing as mp
+    ctxm = mp.get_context('fork')
+    parent, child = ctxm.Pipe(duplex=False)
+
+    def work(conn):
+        try:
+            conn.send(('ok', _measure_tables()))
+        except BaseException as e:
+            conn.send(('err', repr(e)))
+        finally:
+            conn.close()
+    proc = ctxm.Process(target=work, args=(child,), daemon=True)
+    proc.start()
+    child.close()
+    try:
+        if parent.poll(TABLES_TIMEOUT):
+            kind, val = parent.recv()
+        else:
+            kind, val = 'err', 'timed out after %.0fs (the code under test hangs)' % TABLES_TIMEOUT
+    except (EOFError, OSError) as e:
+        kind, val = 'err', 'measurement process died: %r' % (e,)
+    finally:
+        if proc.is_alive():
+            proc.kill()
+        proc.join(5)
+        parent.close()
+    if kind != 'ok':
+        raise RuntimeError(val)
+    return val
+
+
 def tables(ctx):
     try:
-        state_codes, chans, rows, exit_codes, prio = _measure_tables()
+        state_codes, chans, rows, exit_codes, prio = _measure_tables_guarded()
     except Exception as e:     # the module is broken: the table says so, the proof obligation fails
         state_codes, chans, rows, exit_codes, prio = [9], [9], [], [], []
         ctx.note('tables: measuring wspbus failed: %r' % (e,))
